@@ -2,7 +2,7 @@
 import numpy as np
 
 
-def header(nchan, count, nbytes=2, byte_format="01", coding="pcm", hsize=1024, rate=8000, extra=(), omit=()):
+def header(nchan, count, nbytes=2, byte_format="01", coding="pcm", hsize=1024, rate=8000, extra=(), omit=(), lead=()):
     fields = [
         ("channel_count", "-i %d" % nchan),
         ("sample_count", "-i %d" % count),
@@ -12,6 +12,8 @@ def header(nchan, count, nbytes=2, byte_format="01", coding="pcm", hsize=1024, r
         ("sample_coding", "-s%d %s" % (len(coding), coding)),
     ]
     h = "NIST_1A\n%7d\n" % hsize
+    for line in lead:  # (other fields first: the order of header fields is free)
+        h += line + "\n"
     for k, v in fields:
         if k not in omit:
             h += "%s %s\n" % (k, v)
@@ -24,13 +26,16 @@ def header(nchan, count, nbytes=2, byte_format="01", coding="pcm", hsize=1024, r
     return b + b" " * (hsize - len(b))
 
 
-def pcm_file(x, byte_format="01", hsize=1024, promised=None):
+METADATA = tuple("note_%03d -s10 abcdefghij" % j for j in range(38))  # (pushes the mandatory fields across byte 1024)
+
+
+def pcm_file(x, byte_format="01", hsize=1024, promised=None, lead=()):
     """x: int16 array (n,) or (n, c)."""
     x = np.asarray(x)
     nchan = 1 if x.ndim == 1 else x.shape[1]
     n = x.shape[0]
     dt = "<i2" if byte_format == "01" else ">i2"
-    return header(nchan, n if promised is None else promised, 2, byte_format, "pcm", hsize) + x.astype(dt).tobytes()
+    return header(nchan, n if promised is None else promised, 2, byte_format, "pcm", hsize, lead=lead) + x.astype(dt).tobytes()
 
 
 def law_file(codes, coding, nchan=1, hsize=1024, promised=None):
